@@ -674,13 +674,26 @@ def fixed_chunk_reads(ctx, modnames):
                 if isinstance(ch, (ast.FunctionDef, ast.Lambda)):
                     visit(ch, False)
                     continue
-                if in_loop and isinstance(ch, ast.Call) and isinstance(ch.func, ast.Attribute) and ch.func.attr in ("read", "recv", "read1") and len(ch.args) == 1:
+                if isinstance(ch, ast.Call) and ast.unparse(ch.func).split(".")[-1] == "partial" and len(ch.args) == 2 and \
+                        isinstance(ch.args[0], ast.Attribute) and ch.args[0].attr in ("read", "recv", "read1"):
+                    # iter(partial(stream.read, K), b""): K bytes per iteration
+                    fake = ast.Call(func=ch.args[0], args=[ch.args[1]], keywords=[])
+                    ast.copy_location(fake, ch)
+                    ch, in_loop_here = fake, True
+                else:
+                    in_loop_here = in_loop
+                if in_loop_here and isinstance(ch, ast.Call) and isinstance(ch.func, ast.Attribute) and ch.func.attr in ("read", "recv", "read1") and len(ch.args) == 1:
                     k = const_of(ch.args[0])
                     q, _fn = enclosing(qidx, src.tree, ch)
                     # whole chunks are an over-read when what was collected is cut back afterwards (`[:n]`): a loop that reads `count`
                     # items of K bytes each, and keeps them all, asks for exactly what it needs
                     trims = _fn is not None and any(isinstance(x, ast.Subscript) and isinstance(x.slice, ast.Slice) and x.slice.lower is None
                                                     and x.slice.upper is not None for x in ast.walk(_fn))
+                    # ... or the loop runs "until enough": some ordering comparison involves a parameter of the function (the requested size)
+                    params_ = {a_.arg for a_ in (_fn.args.args + _fn.args.kwonlyargs + _fn.args.posonlyargs)} if _fn is not None else set()
+                    until = _fn is not None and any(isinstance(x, ast.Compare) and any(isinstance(o_, (ast.Lt, ast.LtE, ast.Gt, ast.GtE)) for o_ in x.ops)
+                                                    and ({n_.id for n_ in ast.walk(x) if isinstance(n_, ast.Name)} & params_) for x in ast.walk(_fn))
+                    trims = trims or until
                     if k is not None and k > 1 and trims:
                         out.append({"function": f"{mn}:{q}", "stmt": ast.unparse(ch)[:100], "file": src.rel, "line": ch.lineno, "size": k})
                 visit(ch, loop)
